@@ -105,7 +105,9 @@ func genUint(t *rapid.T, bits int, label string) (uint64, string) {
 	}
 }
 
-func isBoundary(class string) bool { return class == "zero" || class == "max" || class == "max-k" || class == "bit" }
+func isBoundary(class string) bool {
+	return class == "zero" || class == "max" || class == "max-k" || class == "bit"
+}
 
 // genBytes draws n bytes, biased to patterns.
 func genBytes(t *rapid.T, n int, label string) []byte {
@@ -123,6 +125,14 @@ func genBytes(t *rapid.T, n int, label string) []byte {
 		copy(b, rapid.SliceOfN(rapid.Byte(), n, n).Draw(t, label))
 	}
 	return b
+}
+
+// exact returns a copy of b whose capacity equals its length, so that a decoder slicing past the
+// length cannot silently reach bytes of a longer backing array.
+func exact(b []byte) []byte {
+	r := make([]byte, len(b))
+	copy(r, b)
+	return r
 }
 
 // call runs f and converts a panic of the code under test into pan != nil.
@@ -399,9 +409,9 @@ func runFlat(t *testing.T, s *flat, n int) {
 		var b []byte
 		switch edit {
 		case "truncate":
-			b = append([]byte(nil), got[:rapid.IntRange(0, s.size-1).Draw(t, "k")]...)
+			b = exact(got[:rapid.IntRange(0, s.size-1).Draw(t, "k")])
 		case "extend":
-			b = append(append([]byte(nil), got...), genBytes(t, rapid.IntRange(1, 9).Draw(t, "m"), "ext")...)
+			b = exact(append(append([]byte(nil), got...), genBytes(t, rapid.IntRange(1, 9).Draw(t, "m"), "ext")...))
 		case "arbitrary":
 			b = genBytes(t, s.size, "arb")
 		case "setbyte":
@@ -477,6 +487,6 @@ func (s *flat) truncations(t *testing.T) {
 		return
 	}
 	for k := 0; k < s.size; k++ {
-		s.checkBytes(t, "truncate-all", full[:k])
+		s.checkBytes(t, "truncate-all", exact(full[:k]))
 	}
 }
